@@ -182,7 +182,8 @@ Proof.
     + destruct (IHp _ _ _ _ E rf Hrf) as (t & Ht & Hi). exists t. split; [exact Ht|apply in_or_app; left; exact Hi].
     + destruct (IHps _ _ _ _ E0 rf Hrf) as (t & Ht & Hi). exists t. split; [exact Ht|apply in_or_app; right; exact Hi].
   - intros n rq op f [IH IHit] path io num r H. rewrite (cv_property_eq snake camel screaming) in H.
-    cbn [refs_of_property]. destruct f as [s|rf0|nm ps|rf0|nm ps|rf0|e|it|it]; inv_ok H; pose proof (finish_imports _ _ _ _ _ _ _ _ _ _ _ _ _ H) as Hinc.
+    cbn [refs_of_property]. destruct f as [s|rf0|nm ps|rf0|nm ps|rf0|e|it|it]; inv_ok H;
+      try (destruct io; [discriminate|]); pose proof (finish_imports _ _ _ _ _ _ _ _ _ _ _ _ _ H) as Hinc.
     1-7: intros rf Hrf; destruct (IH _ _ _ E rf Hrf) as (t & Ht & Hi); exists t; split; [exact Ht|apply Hinc; exact Hi].
     + intros rf Hrf. destruct (IHit _ _ _ E rf Hrf) as (t & Ht & Hi). exists t. split; [exact Ht|].
       apply Hinc. apply in_or_app. left. exact Hi.
